@@ -47,36 +47,47 @@ Definition xv_vars_in_directives (dirs : list directive) : list str :=
   flat_map (fun d => xv_vars_in_arguments (d_args d)) dirs.
 
 (* walk_selections_with_deduped_fragments: the selections in the order `f` is called on them, or None
-   for RecursionLimitError.  `budget` is what is left of the DepthCounter limit (500): every nested call
-   goes through guard.increment().  `seen` is inserted into before the fragment is looked up. *)
+   for RecursionLimitError.  `seen` is inserted into before the fragment is looked up. *)
+Section XvWalkList.
+  Context (step : list str -> xsel -> option (list xsel * list str)).
+  (* `for selection in &selection_set.selections { f(selection); <step>? }` *)
+  Fixpoint xv_walk_list (seen : list str) (l : list xsel) : option (list xsel * list str) :=
+    match l with
+    | [] => Some ([], seen)
+    | x :: r =>
+        match step seen x with
+        | None => None
+        | Some (a, seen1) =>
+            match xv_walk_list seen1 r with
+            | None => None
+            | Some (b, seen2) => Some (x :: a ++ b, seen2)
+            end
+        end
+    end.
+End XvWalkList.
+
+(* the `match selection` of walk_selections_inner; `rec` is `walk_selections_inner(.., guard.increment()?, ..)` *)
+Definition xv_walk_step (frags : list (str * xfrag))
+    (rec : list str -> list xsel -> option (list xsel * list str))
+    (seen : list str) (x : xsel) : option (list xsel * list str) :=
+  match x with
+  | XsField _ _ _ _ _ _ sub | XsInline _ _ _ sub => rec seen sub
+  | XsSpread name _ =>
+      if xd_mem name seen then Some ([], seen)
+      else
+        match xd_assoc name frags with
+        | Some def => rec (name :: seen) (xf_sels def)
+        | None => Some ([], name :: seen)
+        end
+  end.
+
+(* `budget` is what is left of the DepthCounter limit (500): guard.increment() fails when it is used up *)
 Fixpoint xv_walk (budget : nat) (frags : list (str * xfrag)) (seen : list str) (l : list xsel)
     {struct budget} : option (list xsel * list str) :=
-  (fix go (seen : list str) (l : list xsel) {struct l} : option (list xsel * list str) :=
-     match l with
-     | [] => Some ([], seen)
-     | x :: r =>
-         let inner :=
-           match x with
-           | XsField _ _ _ _ _ _ sub | XsInline _ _ _ sub =>
-               match budget with O => None | S b => xv_walk b frags seen sub end
-           | XsSpread name _ =>
-               if xd_mem name seen then Some ([], seen)
-               else
-                 match xd_assoc name frags with
-                 | Some def =>
-                     match budget with O => None | S b => xv_walk b frags (name :: seen) (xf_sels def) end
-                 | None => Some ([], name :: seen)
-                 end
-           end in
-         match inner with
-         | None => None
-         | Some (a, seen1) =>
-             match go seen1 r with
-             | None => None
-             | Some (b, seen2) => Some (x :: a ++ b, seen2)
-             end
-         end
-     end) seen l.
+  xv_walk_list
+    (xv_walk_step frags
+       (fun seen l => match budget with O => None | S b => xv_walk b frags seen l end))
+    seen l.
 
 Definition xv_depth_limit : nat := 500.
 
@@ -287,22 +298,33 @@ Definition xv_check_defer_label (st : xv_lab) (dir : directive) : xv_lab :=
 Definition xv_check_defer_dirs (st : xv_lab) (dirs : list directive) : xv_lab :=
   fold_left (fun st dir => if streq (d_name dir) xn_defer then xv_check_defer_label st dir else st) dirs st.
 
-(* walk_defers_in_selection_set.  Third component false = RecursionLimitError: the walk of this
+(* a `for selection in ..` loop that threads a state and stops at the first `?` failure *)
+Section XvStList.
+  Context {St : Type} (step : St -> xsel -> St * bool).
+  Fixpoint xv_st_list (st : St) (l : list xsel) : St * bool :=
+    match l with
+    | [] => (st, true)
+    | x :: r =>
+        let '(st2, cont) := step st x in
+        if cont then xv_st_list st2 r else (st2, false)
+    end.
+End XvStList.
+
+(* walk_defers_in_selection_set.  Second component false = RecursionLimitError: the walk of this
    selection set stops there (`let _ =`), what was recorded before stays *)
+Definition xv_walk_defers_step (rec : xv_lab -> list xsel -> xv_lab * bool) (st : xv_lab) (x : xsel)
+  : xv_lab * bool :=
+  let st1 := xv_check_defer_dirs st (xv_sel_dirs x) in
+  match x with
+  | XsField _ _ _ _ _ _ sub | XsInline _ _ _ sub => rec st1 sub
+  | XsSpread _ _ => (st1, true)
+  end.
+
 Fixpoint xv_walk_defers (budget : nat) (st : xv_lab) (l : list xsel) {struct budget} : xv_lab * bool :=
-  (fix go (st : xv_lab) (l : list xsel) {struct l} : xv_lab * bool :=
-     match l with
-     | [] => (st, true)
-     | x :: r =>
-         let st1 := xv_check_defer_dirs st (xv_sel_dirs x) in
-         let '(st2, cont) :=
-           match x with
-           | XsField _ _ _ _ _ _ sub | XsInline _ _ _ sub =>
-               match budget with O => (st1, false) | S b => xv_walk_defers b st1 sub end
-           | XsSpread _ _ => (st1, true)
-           end in
-         if cont then go st2 r else (st2, false)
-     end) st l.
+  xv_st_list
+    (xv_walk_defers_step
+       (fun st l => match budget with O => (st, false) | S b => xv_walk_defers b st l end))
+    st l.
 
 Definition xv_defer_labels (d : xdoc) : bool :=
   let st := fold_left (fun st op => fst (xv_walk_defers xv_depth_limit st (xo_sels op))) (xd_ops d) (true, []) in
@@ -313,37 +335,29 @@ Definition xv_has_defer (dirs : list directive) : bool :=
   existsb (fun dir => streq (d_name dir) xn_defer) dirs.
 
 (* forbid_defer_on_root: ((no diagnostic, visited_fragments), not aborted) *)
+Definition xv_defer_on_root_step (frags : list (str * xfrag))
+    (rec : bool * list str -> list xsel -> (bool * list str) * bool)
+    (st : bool * list str) (x : xsel) : (bool * list str) * bool :=
+  let '(ok, visited) := st in
+  match x with
+  | XsField _ _ _ _ _ _ _ => (st, true)
+  | XsInline _ dirs _ sub => rec (ok && negb (xv_has_defer dirs), visited) sub
+  | XsSpread name dirs =>
+      let ok1 := ok && negb (xv_has_defer dirs) in
+      if xd_mem name visited then ((ok1, visited), true)
+      else
+        match xd_assoc name frags with
+        | Some def => rec (ok1, name :: visited) (xf_sels def)
+        | None => ((ok1, name :: visited), true)
+        end
+  end.
+
 Fixpoint xv_defer_on_root (budget : nat) (frags : list (str * xfrag)) (st : bool * list str)
     (l : list xsel) {struct budget} : (bool * list str) * bool :=
-  (fix go (st : bool * list str) (l : list xsel) {struct l} : (bool * list str) * bool :=
-     match l with
-     | [] => (st, true)
-     | x :: r =>
-         let '(ok, visited) := st in
-         let '(st2, cont) :=
-           match x with
-           | XsField _ _ _ _ _ _ _ => (st, true)
-           | XsInline _ dirs _ sub =>
-               let ok1 := ok && negb (xv_has_defer dirs) in
-               match budget with
-               | O => ((ok1, visited), false)
-               | S b => xv_defer_on_root b frags (ok1, visited) sub
-               end
-           | XsSpread name dirs =>
-               let ok1 := ok && negb (xv_has_defer dirs) in
-               if xd_mem name visited then ((ok1, visited), true)
-               else
-                 match xd_assoc name frags with
-                 | Some def =>
-                     match budget with
-                     | O => ((ok1, name :: visited), false)
-                     | S b => xv_defer_on_root b frags (ok1, name :: visited) (xf_sels def)
-                     end
-                 | None => ((ok1, name :: visited), true)
-                 end
-           end in
-         if cont then go st2 r else (st2, false)
-     end) st l.
+  xv_st_list
+    (xv_defer_on_root_step frags
+       (fun st l => match budget with O => (st, false) | S b => xv_defer_on_root b frags st l end))
+    st l.
 
 (* selection_may_be_excluded *)
 Fixpoint xv_may_be_excluded (dirs : list directive) : bool :=
@@ -371,38 +385,31 @@ Definition xv_defer_can_be_disabled (dir : directive) : bool :=
   end.
 
 (* forbid_unconditional_defer *)
+Definition xv_unconditional_defer_step (frags : list (str * xfrag))
+    (rec : bool * list str -> list xsel -> (bool * list str) * bool)
+    (st : bool * list str) (x : xsel) : (bool * list str) * bool :=
+  let '(ok, visited) := st in
+  if xv_may_be_excluded (xv_sel_dirs x) then (st, true)              (* continue *)
+  else
+    let ok1 := ok && forallb (fun dir => negb (streq (d_name dir) xn_defer)
+                                         || xv_defer_can_be_disabled dir) (xv_sel_dirs x) in
+    match x with
+    | XsField _ _ _ _ _ _ sub | XsInline _ _ _ sub => rec (ok1, visited) sub
+    | XsSpread name _ =>
+        if xd_mem name visited then ((ok1, visited), true)
+        else
+          match xd_assoc name frags with
+          | Some def => rec (ok1, name :: visited) (xf_sels def)
+          | None => ((ok1, name :: visited), true)
+          end
+    end.
+
 Fixpoint xv_unconditional_defer (budget : nat) (frags : list (str * xfrag)) (st : bool * list str)
     (l : list xsel) {struct budget} : (bool * list str) * bool :=
-  (fix go (st : bool * list str) (l : list xsel) {struct l} : (bool * list str) * bool :=
-     match l with
-     | [] => (st, true)
-     | x :: r =>
-         let '(ok, visited) := st in
-         if xv_may_be_excluded (xv_sel_dirs x) then go st r
-         else
-           let ok1 := ok && forallb (fun dir => negb (streq (d_name dir) xn_defer)
-                                                || xv_defer_can_be_disabled dir) (xv_sel_dirs x) in
-           let '(st2, cont) :=
-             match x with
-             | XsField _ _ _ _ _ _ sub | XsInline _ _ _ sub =>
-                 match budget with
-                 | O => ((ok1, visited), false)
-                 | S b => xv_unconditional_defer b frags (ok1, visited) sub
-                 end
-             | XsSpread name _ =>
-                 if xd_mem name visited then ((ok1, visited), true)
-                 else
-                   match xd_assoc name frags with
-                   | Some def =>
-                       match budget with
-                       | O => ((ok1, name :: visited), false)
-                       | S b => xv_unconditional_defer b frags (ok1, name :: visited) (xf_sels def)
-                       end
-                   | None => ((ok1, name :: visited), true)
-                   end
-             end in
-           if cont then go st2 r else (st2, false)
-     end) st l.
+  xv_st_list
+    (xv_unconditional_defer_step frags
+       (fun st l => match budget with O => (st, false) | S b => xv_unconditional_defer b frags st l end))
+    st l.
 
 (* the per-operation part of validate_defer *)
 Definition xv_defer_operation (d : xdoc) (op : xop) : bool :=
